@@ -67,10 +67,31 @@ pub fn gen_echo_mutation(rng: &mut Rng) -> EchoMutation {
 }
 
 fn gen_reply(rng: &mut Rng, other: u16) -> Reply {
+    // now and then two deviations at once: whatever the reply is, it also asks for a confirmation
+    if rng.chance(1, 10) {
+        let inner = gen_reply_single(rng, other);
+        return if matches!(inner, Reply::Silent | Reply::Cut | Reply::WithCon | Reply::IinCon(..)) {
+            inner
+        } else {
+            Reply::ConPlus(Box::new(inner))
+        };
+    }
+    gen_reply_single(rng, other)
+}
+
+fn gen_reply_single(rng: &mut Rng, other: u16) -> Reply {
     match rng.below(14) {
         0..=3 => Reply::Echo(gen_echo_mutation(rng)),
         4 | 5 => Reply::Silent,
-        6 => Reply::Iin(0, *rng.pick(&[0x01u8, 0x02, 0x04])),
+        6 => {
+            let bit = *rng.pick(&[0x01u8, 0x02, 0x04]);
+            if rng.chance(1, 3) {
+                // the rejection also asks for a confirmation
+                Reply::IinCon(0, bit)
+            } else {
+                Reply::Iin(0, bit)
+            }
+        }
         7 => Reply::WrongSeq(rng.range(1, 15) as u8),
         8 => Reply::StaleThenFaithful(rng.range(1, 15) as u8),
         9 => Reply::ForeignThenFaithful(other),
@@ -1218,7 +1239,7 @@ pub fn analyse(
                     "iin"
                         if a.bytes.len() >= 4
                             && a.bytes[3] & 0x07 != 0
-                            && a.bytes[0] & 0xF0 == 0xC0
+                            && a.bytes[0] & 0xD0 == 0xC0
                             && a.src == task.assoc
                             && a.bytes[0] & 0x0F == s.seq =>
                     {
